@@ -196,7 +196,7 @@ class CVRPTWEnv(CVRPEnv):
                 gather_by_index(td["locs"], next_node).reshape([batch_size, 2]),
             ).reshape([batch_size, 1])
             curr_time = torch.max(
-                (curr_time + dist).int(),
+                curr_time + dist,
                 gather_by_index(td["time_windows"], next_node)[..., 0].reshape(
                     [batch_size, 1]
                 ),
